@@ -47,7 +47,7 @@ def gen_times(rng, quick):
         ts = [t0]
         for _ in range(nsnap):
             k = rng.choice([1, 2, 3])
-            inc = k * dt if kind == "dyadic-div" else k * dt - rng.choice([1 / 64, 1 / 128, 3 / 256])
+            inc = k * dt if kind == "dyadic-div" else k * dt + rng.choice([-1, 1]) * rng.choice([1 / 64, 1 / 128, 3 / 256])
             ts.append(ts[-1] + inc)
     else:
         t0 = rng.choice([0.0, 0.0, 0.1, -0.3])
@@ -55,7 +55,7 @@ def gen_times(rng, quick):
         ts = [t0]
         for _ in range(nsnap):
             k = rng.choice([1, 2, 3])
-            inc = k * dt if kind == "decimal-div" else round(k * dt - rng.choice([0.01, 0.013, 0.004]), 6)
+            inc = k * dt if kind == "decimal-div" else round(k * dt + rng.choice([-1, 1]) * rng.choice([0.01, 0.013, 0.004]), 6)
             ts.append(ts[-1] + inc)
     return ts, dt, kind
 
@@ -247,22 +247,31 @@ def check_time_grid(ctx, case, res):
     per = 1 if case["order"] == "2nd" else 5
     pos = 0
     for (t0, t1), o, m in zip(snaps, real_outs, mod["res"]):
-        steps = m["steps"]
-        ds = Fraction(m["ds"][0], m["ds"][1])
+        # independent reference for the ORACLES (never the model): least k >= 1 with k*dt > T - 1e-12, ds = T/k
+        Tq, dq = frac(t1 - t0), frac(dt)
+        steps_ref = max(1, math.floor((Tq - Fraction(1, 10 ** 12)) / dq) + 1)
+        if m["steps"] != steps_ref or Fraction(m["ds"][0], m["ds"][1]) != Tq / steps_ref:
+            ctx.fail("correspondence", "c10:model-steps", f"model steps/ds {m['steps']}, {m['ds']} differ from the reference "
+                     f"{steps_ref}, {Tq / steps_ref} (T={t1 - t0!r}, dt={dt!r})", case=cj)
+        steps = steps_ref
+        ds = Tq / steps_ref
         # float arithmetic is exact when every quantity is a dyadic rational of moderate size (ds = T/steps included)
         dyadic = case["grid"].startswith("dyadic") and (ds.denominator & (ds.denominator - 1)) == 0
         ctx.count("time_grid_intervals")
         ctx.count("time_grid_exact" if dyadic else "time_grid_ulps")
         # -- the property's own observable: reported times
-        tol_t = 0.0 if dyadic else 4 * steps * ulp(max(abs(t0), abs(t1)))
+        # exactness of the accumulated float time depends on the step the code REALLY took
+        ds_real = Tq / o.steps if o.steps >= 1 else Fraction(1, 3)
+        exact_t = case["grid"].startswith("dyadic") and (ds_real.denominator & (ds_real.denominator - 1)) == 0
+        tol_t = 0.0 if exact_t else 4 * max(o.steps, 1) * ulp(max(abs(t0), abs(t1)))
         if o.ti != t0 or abs(o.tf - t1) > tol_t:
             ctx.fail("oracle", "c10:reported-time", f"snapshot ({t0},{t1}): TDVP_out.ti={o.ti!r} tf={o.tf!r} (|tf - t1|={abs(o.tf - t1):.3e}, "
                      f"allowed {tol_t:.3e}), steps={o.steps}", case=cj, concrete=True)
         if o.steps != steps:
-            ctx.fail("correspondence", "c10:steps", f"snapshot ({t0},{t1}) dt={dt}: real steps={o.steps} model={steps}", case=cj)
-            if o.steps * dt < (t1 - t0) - 1e-9 or (o.steps - 1) * dt > (t1 - t0):
-                ctx.fail("oracle", "c10:steps-not-minimal", f"snapshot ({t0},{t1}) dt={dt}: {o.steps} steps of size {o.dt!r}: "
-                         f"the step was not 'adjusted down to an integer number of steps' (minimal count is {steps})", case=cj, concrete=True)
+            ctx.fail("correspondence", "c10:steps", f"snapshot ({t0},{t1}) dt={dt}: real steps={o.steps} model={m['steps']}", case=cj)
+            if o.steps < 1 or o.dt > dt * (1 + 1e-9):
+                ctx.fail("oracle", "c10:ds-larger-than-dt", f"snapshot ({t0},{t1}) dt={dt!r}: {o.steps} steps of size {o.dt!r}: the step "
+                         f"was not adjusted DOWN to an integer number of steps ({steps} steps of {float(ds)!r} expected)", case=cj, concrete=True)
             return
         if (dyadic and frac(o.dt) != ds) or abs(o.dt - float(ds)) > 2 * ulp(float(ds)):
             ctx.fail("correspondence", "c10:ds", f"real ds={o.dt!r} model={ds}", case=cj)
@@ -603,6 +612,12 @@ def run(ctx):
 def search(ctx, broken, budget_s):
     t0 = time.time()
     rng = ctx.rng
+    drv = ctx.drv
+    try:   # core closes the model driver before it calls search(): the oracles do not need it
+        if drv is not None and (drv.p.poll() is not None or drv.p.stdin.closed):
+            ctx.drv = None
+    except Exception:
+        ctx.drv = None
     i = 0
     while time.time() - t0 < budget_s and not any(f.concrete for f in ctx.findings):
         i += 1
@@ -614,6 +629,7 @@ def search(ctx, broken, budget_s):
                 case["callable_H"] = False
                 case["u"], case["u_kind"] = [0.0, 1.0], "real"
             run_case(ctx, case)
+    ctx.drv = drv
     ctx.notes.append(f"search: {time.time() - t0:.0f}s of additional random cases")
 
 
